@@ -439,6 +439,9 @@ pub fn expr_to_source_with_scope(
             statements,
             return_expr,
         } => {
+            // A name assigned by a statement of the block shadows the captured value from
+            // the next statement on, so it must not be inlined there
+            let mut scope = scope.clone();
             let mut result = "do {".to_string();
             for stmt in statements {
                 // Leading comments
@@ -448,8 +451,11 @@ pub fn expr_to_source_with_scope(
                 // Expression
                 result.push_str(&format!(
                     "\n  {}",
-                    expr_to_source_with_scope(&stmt.node, scope)
+                    expr_to_source_with_scope(&stmt.node, &scope)
                 ));
+                if let Expr::Assignment { ident, .. } = &stmt.node.node {
+                    scope.shift_remove(ident);
+                }
                 // Trailing comment
                 if let Some(trailing) = &stmt.trailing {
                     result.push_str(&format!("  {}", trailing));
@@ -461,7 +467,7 @@ pub fn expr_to_source_with_scope(
             }
             result.push_str(&format!(
                 "\n  return {}",
-                expr_to_source_with_scope(&return_expr.node, scope)
+                expr_to_source_with_scope(&return_expr.node, &scope)
             ));
             result.push_str("\n}");
             result
